@@ -61,6 +61,10 @@ Apply(op, a, b, c) ==
     \* transform that collapses every element to the same record: a set result has one element
     [] op = "tconst" -> IF a.k = "list" THEN List([j \in DOMAIN a.e |-> Map([y |-> b])])
                         ELSE Set({Map([y |-> b]) : x \in a.e})
+    \* set-typed transform with several fields per row over a list or a set: equal rows are kept once, so a list with
+    \* repeated elements gives fewer rows than it has elements
+    [] op = "tset"  -> Set({Map([id |-> x, twice |-> IntV(x.i * 2), tag |-> b]) :
+                              x \in (IF a.k = "list" THEN Range(a.e) ELSE a.e)})
     \* a record built by a transform without iteration: (a = ..., b = ..., c = ...)
     [] op = "mkmap"  -> Map([a |-> a, b |-> b, c |-> c])
     \* attribute access
@@ -92,6 +96,7 @@ WellTyped(op, a, b, c) ==
     [] op = "where" -> a.k = "set" /\ ElemKinds(a) \subseteq {"int"} /\ b.k = "int"
     [] op = "tform" -> a.k \in {"list", "set"} /\ ElemKinds(a) \subseteq {"int"} /\ b.k = "int"
     [] op = "tconst" -> a.k \in {"list", "set"} /\ ElemKinds(a) \subseteq {"int"} /\ b.k = "int"
+    [] op = "tset" -> a.k \in {"list", "set"} /\ ElemKinds(a) \subseteq {"int"} /\ b.k = "int"
     [] op = "mkmap" -> a.k = "int" /\ b.k = "int" /\ c.k = "int"
     [] op = "attr" -> a.k = "map" /\ DOMAIN a.m = {"a", "b", "c"}
     [] op = "mapt" -> a.k = "map" /\ DOMAIN a.m = {"a", "b", "c"} /\ b.k = "int"
